@@ -169,6 +169,15 @@ int main(void)
             never_verif_gc_mode = 0;
             printf("ok "); print_state();
         }
+        else if (!strcmp(tok[0], "run"))
+        {
+            /* the real trigger of gc_run (mode 0 = the 80% rule) */
+            static gc_stack st[MAXTOK];
+            int n = parse_slots(tok + 2, nt - 2, st);
+            never_verif_gc_mode = 0;
+            gc_run(g, st, n, strtoul(tok[1], NULL, 10));
+            printf("ok "); print_state();
+        }
         else if (!strcmp(tok[0], "omfalos"))
         {
             static gc_stack st[MAXTOK];
